@@ -2,7 +2,10 @@ module wa-lang.org/wa/verifcheck
 
 go 1.23
 
-require golang.org/x/tools v0.29.0
+require (
+	golang.org/x/tools v0.29.0
+	wa-lang.org/wa v0.0.0-00010101000000-000000000000
+)
 
 require (
 	golang.org/x/mod v0.22.0 // indirect
